@@ -132,13 +132,17 @@ class Script:
             self.declare(f'f{self.nfresh}')
         elif name == 'add_var-conflict':
             vs = sorted(r.vars, key=r.vars.get)
-            if vs:
-                # existing name, other level; new name, used level
-                self.refuse(w.bdd.add_var, 'add_var', vs[0],
-                            r.vars[vs[0]] + 1)
-                self.refuse(w.bdd.add_var, 'add_var', 'zz',
-                            r.vars[vs[-1]])
-                ctx.counters['conflicts_refused'] += 2
+            # every existing name at every other level (also beyond
+            # the bottom); a new name at every used level
+            n = len(vs)
+            for v in vs:
+                for lvl in range(n + 2):
+                    if lvl != r.vars[v]:
+                        self.refuse(w.bdd.add_var, 'add_var', v, lvl)
+                        ctx.counters['conflicts_refused'] += 1
+            for lvl in range(n):
+                self.refuse(w.bdd.add_var, 'add_var', 'zz', lvl)
+                ctx.counters['conflicts_refused'] += 1
         elif name == 'build':
             if r.vars:
                 sp = w.sp
